@@ -22,8 +22,10 @@ import (
 	"os"
 	"os/exec"
 	"path/filepath"
+	"regexp"
 	"strings"
 	"sync"
+	"sync/atomic"
 	"time"
 
 	. "verifharness/vhlib"
@@ -331,7 +333,18 @@ func runSessionCase(drc, base string, idx int, c *Case) (distinct []triple, coun
 			}
 			return x
 		}
-		t := canon(triple{norm(out), norm(se.String()), code})
+		// goexpect (third party, session layer) logs `send failed: <nil>` with a time stamp through the
+		// log package when the dialogue is torn down while a send is in flight: timing of the session
+		// layer, outside the planning path — dropped from the compared stderr and counted.
+		var kept []string
+		for _, l := range strings.Split(se.String(), "\n") {
+			if logLineRe.MatchString(l) {
+				sessionNoise.Add(1)
+				continue
+			}
+			kept = append(kept, l)
+		}
+		t := canon(triple{norm(out), norm(strings.Join(kept, "\n")), code})
 		os.RemoveAll(dir)
 		// time-outs of the dialogue and signals are environment trouble: inconclusive, not compared
 		if code == -1 || strings.Contains(t.Stderr, "timeout") && strings.Contains(t.Stderr, "ERROR>>>") && sessionTimeouts(t.Stderr) {
@@ -371,6 +384,10 @@ func sessionTimeouts(stderr string) bool {
 }
 
 var repoRoot = "/repo"
+
+// a line written by Go's log package (date, time, message)
+var logLineRe = regexp.MustCompile(`^\d{4}/\d\d/\d\d \d\d:\d\d:\d\d `)
+var sessionNoise atomic.Int64
 
 // sessionCases: session twins of tie-rich generated inputs.
 func sessionCases(ctx *Ctx, r *RNG) []*Case {
